@@ -1071,6 +1071,7 @@ class Model(object):
         if not ok:
             return Verdict({400})
         st = set()
+        amb = False
         new = {'providers': set(b['inventories']), 'inv': {}}
         for rp, x in b['inventories'].items():
             if rp not in s.providers:
@@ -1082,13 +1083,20 @@ class Model(object):
                 if rc not in s.classes:
                     st.add(400)
                 new['inv'][(rp, rc)] = inv_fields(f)
+                # an inventory means the same through whichever route it is
+                # written: reserved may not exceed total (equal from 1.26)
+                cs = capacity_status(inv_fields(f), v)
+                if cs == {'400'}:
+                    st.add(400)
+                elif '400' in cs:
+                    amb = True
         st2, apply_allocs = self.alloc_write(b['allocations'], max(v, 28),
                                              new_inv=new)
         st |= st2 - {204}
         # inventories of providers named that are still used by consumers
         # not named in the request
         if st:
-            return Verdict(st | (st2 & {204} and set()))
+            return Verdict(st | ({400} if amb else set()))
 
         def apply(state):
             for rp in new['providers']:
@@ -1096,7 +1104,8 @@ class Model(object):
                     del state.inv[k]
             state.inv.update(new['inv'])
             apply_allocs(state)
-        return Verdict({204} | (st2 & {409}), apply)
+        return Verdict({204} | (st2 & {409}) | ({400} if amb else set()),
+                       apply)
 
     # -- usages -----------------------------------------------------------------
     def r_get_usages(self, req, params, q, v):
